@@ -16,6 +16,14 @@ def plan(plan, tier, seed):
         plan.verus.append(VerusUnit("c18_join", unit, {"join_row_selection": name}, ["canary_join"]))
     except AnchorLost as e:
         plan.anchor_errors.append((name, str(e)))
+    n3 = "C18.verus.rows_match.all_common_columns"
+    plan.ob(n3, "verus", "proved", functions=["rows_match"],
+            what="two rows match iff they hold equal cells in EVERY pair of commonly named columns (for any number of common columns, including none)")
+    try:
+        unit = vlib.verus_file([vC18.RM_MODEL, vC18.rows_match_fn(text), vlib.verus_canary("canary_rows_match", "x: u64", [])])
+        plan.verus.append(VerusUnit("c18_rows_match", unit, {"rows_match": n3}, ["canary_rows_match"]))
+    except AnchorLost as e:
+        plan.anchor_errors.append((n3, str(e)))
     ttext = vlib.read_repo(vC18.TPATH)
     from units import vmat
     for fname, gen, oname, what in (
@@ -31,14 +39,14 @@ def plan(plan, tier, seed):
             plan.anchor_errors.append((oname, str(e)))
     plan.functions += ["src/interpreter/src/stdlib/table_ops.rs: TableJoinFxn::build_joined_table (row-selection part)",
                        "src/interpreter/src/stdlib/access/table.rs: TableAccessRangeIndex::solve, TableAccessRangeBool::solve (per-column statements)"]
-    plan.dropped += [vC18.__doc__.strip(), vC18.table_solve.__doc__.strip()]
+    plan.dropped += [vC18.__doc__.strip(), vC18.rows_match_fn.__doc__.strip(), vC18.table_solve.__doc__.strip()]
     plan.trusted += ["Verus 0.2026.09.13 / Z3"]
     plan.assumptions += [
-        "rows_match(l, r) is an arbitrary (uninterpreted) relation: its body (`all` over the common columns, equality of Values) is not under contract",
+        "in the row-selection contract rows_match(l, r) is an arbitrary (uninterpreted) relation; rows_match's own contract is proved separately over opaque cells (`t.data.get(c).map(index1d)` = an uninterpreted optional cell, Value equality = equality of the model values) and the two are NOT composed mechanically",
         "merge_rows / lhs_only_row and the block that pads an unmatched rhs row are replaced by constructors recording which rows are combined; merge_rows' test `rhs_empty || rhs_row == 0` is mirrored in the model; how the builders fill the columns (HashMap per row) is not verified",
         "row counts below usize::MAX (`1..=n` is verified as `1..n + 1`)",
         "table columns modelled as contracts/common/matmodel.rs column vectors of u64; Matrix::index1d / set_index1d / resize_vertically as stated in the model (index(ix-1) / v[i] = x with their panics as early None; resize gives the requested length)",
         "the contract lists rows in the order the code produces them (stronger than the property's multiset): a reordering that keeps the multiset would fail this obligation",
     ]
-    plan.undecided_clauses += ["C18: discovery of the common columns by name, the union of columns and which kinds become optional (make_optional_kind), that padded cells hold the empty value, rows_match itself, scalar row index (TableAccessScalar), table literal construction; join results are not re-evaluated on step (solve swallows errors)"]
+    plan.undecided_clauses += ["C18: discovery of the common columns by name, the union of columns and which kinds become optional (make_optional_kind), that padded cells hold the empty value, scalar row index (TableAccessScalar), table literal construction; join results are not re-evaluated on step (solve swallows errors)"]
     plan.level = "proof"
